@@ -35,6 +35,7 @@ ASSUMPTIONS = [
     "which group a zero-sized block sitting exactly on the boundary between two groups joins is unspecified (it depends on set order); both are accepted",
     "placement across original byte intervals is gtirb_layout's job; alignment is asserted for blocks inside one original interval",
     "alignment entries of the generated modules hold on input (the statement says 'that held before')",
+    "a function inserted with register_insert_function makes gtirb_layout place every byte interval anew; it is exercised on its own (not combined with other modifications) and only its own alignment requirement is asserted",
 ]
 BOUNDS = {"quick": {"interval_size": 4, "blocks": 3}, "thorough": {"interval_size": 6, "blocks": 3}}
 CAP_S = {"quick": 150, "thorough": 2400}
@@ -421,15 +422,19 @@ def aligned_specs():
 P_ORD = [["p", 0]]
 P_ALIGN = [["p", 0], ["raw", ".align 8"], ["p", 0]]
 P_ALIGN_HEAD = [["raw", ".align 8"], ["p", 0]]
+P_ALIGN4_HEAD = [["raw", ".align 4"], ["p", 0]]  # a weaker requirement than the one the block may already carry
 
 
 def _align_at(mods):
     """where the `.align` directives of the patches sit: 'block-start' when each one opens a patch inserted at offset 0 of a
     block (the new block then opens its interval, the case join_byte_intervals handles), else 'inside'"""
     head = True
-    for m in mods:
+    for i, m in enumerate(mods):
         if m["op"] in ("ins", "rep") and isinstance(m["p"], list) and any(t[0] == "raw" for t in m["p"]):
             if not (m["p"][0][0] == "raw" and all(t[0] != "raw" for t in m["p"][1:]) and m["k"] == 0 and m["op"] == "ins"):
+                head = False
+            # ...and nothing registered earlier for the same place: that would come first and push the directive inside
+            if any(o["op"] == "ins" and o["b"] == m["b"] and o["k"] == 0 for o in mods[:i]):
                 head = False
     return "block-start" if head else "inside"
 
@@ -452,12 +457,25 @@ def check_alignment(spec, mods):
     for node, a in al.items():
         if isinstance(node, gtirb.ByteBlock) and node.module is w.m:
             patch_added = node not in w.blocks.values()
-            if node.address % a:
+            if node.address is None or node.address % a:
                 diffs.append(C.D("aligned-block-misaligned", r_block="patch-added" if patch_added else "original", r_align_at=_align_at(mods) if patch_added else "-", alignment=a, address=node.address))
+    # requirements that held before: the place an aligned input block started at (its label) is still aligned, whatever
+    # the table says now
+    gone = {}
+    for m_ in mods:
+        if m_["op"] == "del":
+            gone[m_["b"]] = gone.get(m_["b"], 0) + m_["n"]
+    for s_ in spec["sections"]:
+        for b_ in s_["blocks"]:
+            if b_.get("al") and gone.get(b_["n"], 0) < len(b_["i"]):
+                sy = w.syms[b_["n"]]
+                r = sy.referent
+                if isinstance(r, gtirb.ByteBlock) and r.address is not None and (r.address + (r.size if sy.at_end else 0)) % b_["al"]:
+                    diffs.append(C.D("input-alignment-no-longer-holds", r_align_at=_align_at(mods) if any(isinstance(x.get("p"), list) and any(t[0] == "raw" for t in x["p"]) for x in mods if x["op"] in ("ins", "rep")) else "-", block=b_["n"], alignment=b_["al"], address=r.address))
     # bytes: model bytes + only whole-nop / zero padding directly in front of aligned blocks
     mods_m = [m for m in mods]
     for m in mods_m:
-        if m["op"] in ("ins", "rep") and isinstance(m["p"], list) and any(t[0] == "raw" for t in m["p"]):
+        if m["op"] in ("ins", "rep", "newfunc") and isinstance(m["p"], list) and any(t[0] == "raw" for t in m["p"]):
             return ("ok" if not diffs else "diff"), diffs  # no reference expansion for .align patches: alignment only
     E, _ = Lg.expected(spec, mods)
     O = Lg.observe(w)
@@ -502,10 +520,15 @@ def align_atoms(spec):
                     out.append({"op": "ins", "b": b["n"], "k": k, "p": P_ALIGN})
                 if x64 and b["k"] == "c" and k == 0:
                     out.append({"op": "ins", "b": b["n"], "k": k, "p": P_ALIGN_HEAD})
+                    out.append({"op": "ins", "b": b["n"], "k": k, "p": P_ALIGN4_HEAD})
             for k in range(n):
                 out.append({"op": "del", "b": b["n"], "k": k, "n": 1})
             if n > 1:
                 out.append({"op": "del", "b": b["n"], "k": 0, "n": n})
+    if spec["target"].startswith("x64"):
+        # a whole new function whose text opens with an alignment requirement of its own
+        out.append({"op": "newfunc", "name": "nfa16", "p": [["raw", ".align 16"], ["p", 0], ["ret"]]})
+        out.append({"op": "newfunc", "name": "nfa4", "p": [["raw", ".align 4"], ["p", 0], ["p", 0], ["ret"]]})
     return out
 
 
@@ -686,7 +709,9 @@ def run_task(task):
     elif task[0] == "align":
         spec = aligned_specs()[task[1]]
         atoms = align_atoms(spec)
-        for mods in scen.mod_sets(spec, atoms, 1):
+        for mods in scen.mod_sets(spec, atoms, 2 if spec["target"].startswith("x64") and not spec.get("alignment_table") else 1):
+            if len(mods) > 1 and any(m_["op"] == "newfunc" for m_ in mods):
+                continue  # an inserted function makes gtirb_layout place every interval anew (ASSUMPTIONS): on its own only
             mods = scen.retag(mods)
             outcome, diffs = check_alignment(spec, mods)
             res.case(("align", task[1], mods), nontrivial=bool(mods), outcome=outcome)
